@@ -429,11 +429,12 @@ def conversation(cfg, payloads, responses, script, rtox=None, release=True, ini_
     return obs
 
 
-def p2p(brty0, dep_i, dep_t, llc_a, llc_b, payload_sizes=()):
+def p2p(brty0, dep_i, dep_t, llc_a, llc_b, payload_sizes=(), ini=None, tgt=None):
     """Two real stacks activated against each other: llc_a.activate(mac=Initiator, **dep_i) in this thread,
     llc_b.activate(mac=Target, **dep_t) in the second one, then one NFC-DEP exchange per entry of
-    payload_sizes (initiator payload size, target payload size).  Returns the observation dict."""
-    link = Link(brty0)
+    payload_sizes (initiator payload size, target payload size).  ini / tgt: nfc.dep objects of an earlier link to be
+    activated again.  Returns the observation dict."""
+    link = Link(brty0, ini=ini, tgt=tgt)
     obs = {'ini': [], 'tgt': []}
 
     def ini_app(link):
